@@ -256,7 +256,9 @@ def run(ck):
             jobs.append((k, fam, hdr, cpp, fl, ed, closed, None))
         for k, (h, m) in enumerate(muts):
             hfl, cl = c12mod.header_flags(h)
-            if any(x in hfl for x in ("--dynamic-loading", "--block-extern-crate", "--generate-block", "--raw-line", "--module-raw-line", "--ctypes-prefix")) or \
+            if "rustbindgen attribute=" in m or "rustbindgen derive=" in m:
+                continue      # user-supplied attributes / derives can make anything uncompilable (e.g. cfg(test) on a field)
+            if any(x in hfl for x in ("--represent-cxx-operators", "--use-distinct-char16-t", "--dynamic-loading", "--block-extern-crate", "--generate-block", "--raw-line", "--module-raw-line", "--ctypes-prefix")) or \
                any(x.startswith("--blocklist") for x in hfl) or "objc" in " ".join(cl):
                 continue      # needs another crate / names the user supplies (raw lines, blocklisted items, custom ctypes)
             # the header's own flags (they may be needed for it to make sense) plus an edition
